@@ -244,7 +244,7 @@ def parse_contracts(path):
     for ln, line in enumerate(lines, 1):
         s = line.strip()
         if s.startswith('@') and not s.startswith('@@'):
-            m = re.match(r'^@(\w+)(#\d+)?\s*(.*)$', s)
+            m = re.match(r'^@(\w+\??)(#\d+)?\s*(.*)$', s)
             if not m:
                 raise ExtractError(f'{path}:{ln}: bad directive')
             d, occ, arg = m.group(1), m.group(2), m.group(3)
@@ -265,9 +265,11 @@ def parse_contracts(path):
                 cur.ret = arg
             elif d == 'attr':
                 cur.attrs.append(arg)
-            elif d == 'rule':
+            elif d in ('rule', 'rule?'):
+                # `@rule? R args`: an OPTIONAL rule -- applied when its pattern occurs, skipped (and logged) otherwise, so that a change
+                # that removes the pattern still leaves the function within the verifier's reach
                 parts = arg.split(None, 1)
-                cur.rules.append((parts[0], parts[1] if len(parts) > 1 else ''))
+                cur.rules.append((parts[0] + ('?' if d == 'rule?' else ''), parts[1] if len(parts) > 1 else ''))
             elif d == 'spec':
                 section = ('spec',)
             elif d in ('after', 'before', 'atstart', 'atend'):
@@ -400,11 +402,16 @@ def emit_function(root, c, mode, extra_fmt_fns):
     body = fn.body_text
     ctx = R.RuleCtx(c.name, extra_fmt_fns, em.log)
     for rule, arg in c.rules:
+        optional = rule.endswith('?')
+        rule = rule.rstrip('?')
         if not hasattr(R, 'rule_' + rule):
             raise ExtractError(f'contract {c.name}: unknown rule {rule}')
         try:
             sig, body = getattr(R, 'rule_' + rule)(ctx, sig, body, arg)
         except R.RuleError as e:
+            if optional:
+                ctx.note('R-' + rule + ' (optional, skipped)', str(e), '')
+                continue
             if mode == 'assume' and rule not in ('callback',):
                 continue    # the body of an assumed function is not emitted: a body-only rule that no longer applies is irrelevant
             raise ExtractError(f'contract {c.name}: rule {rule} not applicable: {e}')
